@@ -198,6 +198,10 @@ def run(ctx):
                 ok = shifted and uses_value
                 why = "the combine step `%s` does not mix the value with a shifted seed (a plain ^=/+= is commutative: swapping components would not change the hash)" % fmt(x)
         ctx.check(ok, "R16.4", hc, "order-sensitive-combine", why, hc)
+    ctx.rule("R16.6", "the hash functions are functions of their argument alone: no function-local static / thread_local object (seed, cache) on the hashing path")
+    from .common import rule_no_static_state
+    rule_no_static_state(ctx, "R16.6", lambda f: f.file.endswith(("lang/hash.hpp", "lang/tuple_operators.hpp", "lang/unordered.hpp")),
+                         "equal values hash differently in different threads / runs of the function, so a container filled by one thread misses every key when queried by another", minimum=6)
     ctx.assume("collision frequency and the numeric quality of std::hash are not decided; hashing of floating-point signed zeros is delegated to std::hash")
     ctx.trust("std::tuple's relational operators are lexicographic and form a strict weak order when the element operators do (Appendix D.6)")
 
